@@ -25,6 +25,61 @@ func replayLegBig(kind string, f map[string]string) (string, bool) {
 	return runLegBig(n), true
 }
 
+// legScan follows the legacy framing of the bytes that pass through it (magic, then size word +
+// payload, repeated) and records the stored sizes of the blocks
+type legScan struct {
+	w     io.Writer
+	state int // 0 magic, 1 word, 2 payload
+	need  int
+	acc   []byte
+	sizes map[uint32]int
+	order []uint32
+}
+
+func (l *legScan) Write(p []byte) (int, error) {
+	q := p
+	for len(q) > 0 {
+		switch l.state {
+		case 0, 1:
+			take := 4 - len(l.acc)
+			if take > len(q) {
+				take = len(q)
+			}
+			l.acc = append(l.acc, q[:take]...)
+			q = q[take:]
+			if len(l.acc) == 4 {
+				if l.state == 1 {
+					w := uint32(l.acc[0]) | uint32(l.acc[1])<<8 | uint32(l.acc[2])<<16 | uint32(l.acc[3])<<24
+					sz := w & 0x7fffffff
+					if l.sizes[sz] == 0 {
+						l.order = append(l.order, sz)
+					}
+					l.sizes[sz]++
+					l.need = int(sz)
+					l.state = 2
+				} else {
+					l.state = 1
+				}
+				l.acc = l.acc[:0]
+				if l.state == 2 && l.need == 0 {
+					l.state = 1
+				}
+			}
+		default:
+			take := l.need
+			if take > len(q) {
+				take = len(q)
+			}
+			q = q[take:]
+			l.need -= take
+			if l.need == 0 {
+				l.state = 1
+			}
+		}
+	}
+	return l.w.Write(p)
+}
+
 type countWriter struct{ n int64 }
 
 func (c *countWriter) Write(p []byte) (int, error) { c.n += int64(len(p)); return len(p), nil }
@@ -33,9 +88,10 @@ func runLegBig(nblk int) string {
 	return withWatchdog(600*time.Second, func() string {
 		blk := genData(0, 4242, 8<<20)
 		pr, pw := io.Pipe()
+		scan := &legScan{w: pw, sizes: map[uint32]int{}}
 		werr := make(chan error, 1)
 		go func() {
-			zw := lz4.NewWriter(pw)
+			zw := lz4.NewWriter(scan)
 			if err := zw.Apply(lz4.LegacyOption(true)); err != nil {
 				pw.CloseWithError(err)
 				werr <- err
@@ -63,7 +119,13 @@ func runLegBig(nblk int) string {
 		} else if rerr != nil {
 			rt = "fail:legacy-stream-read-error-" + errClass(rerr)
 		}
-		return fmt.Sprintf("x_written=%d x_read=%d x_werr=%s oracle_rt=%s", want, cw.n, errClass(we), rt)
+		// C09: a legacy frame holds 8 MiB of content per block: incompressible input is emitted as
+		// nblk blocks whose stored size is 8 MiB each
+		blocks := "ok"
+		if len(scan.order) != 1 || scan.order[0] != 8<<20 || scan.sizes[8<<20] != nblk {
+			blocks = fmt.Sprintf("fail:legacy-frame-of-%d-incompressible-8MiB-chunks-has-blocks-of-stored-sizes-%v", nblk, scan.order)
+		}
+		return fmt.Sprintf("x_written=%d x_read=%d x_werr=%s oracle_rt=%s oracle_blocks=%s", want, cw.n, errClass(we), rt, blocks)
 	})
 }
 
